@@ -748,12 +748,19 @@ class Explorer:
         return lo, hi
 
     # -- proving at the end of a path --
-    def prove(self, claim):
-        """PC => claim ?  returns ('holds'|'violated'|'unknown', model)."""
+    def prove(self, claim, weak=None):
+        """PC => claim ?  returns ('holds'|'violated'|'unknown', model).
+        `weak`: a weaker claim (claim => weak), e.g. "the difference is below 1e-3" next to "the difference is zero". It is asked
+        for first, so that when the claim fails grossly somewhere the model shown is a gross failure (which a concrete replay
+        reproduces with a wide margin) rather than one sitting on a tolerance edge; the verdict is still that of `claim`."""
         if isinstance(claim, SB):
             claim = claim.z
         if isinstance(claim, bool):
             return ("holds" if claim else "violated"), None
+        if weak is not None:
+            r, s = self._check([z3.Not(weak.z if isinstance(weak, SB) else weak)])
+            if r == "sat":
+                return "violated", s.model()
         r, s = self._check([z3.Not(claim)])
         if r == "unsat":
             return "holds", None
@@ -1095,7 +1102,39 @@ class MathProxy:
         self._m = m
 
     def __getattr__(self, name):
-        return getattr(self._m, name)
+        attr = getattr(self._m, name)
+        if not callable(attr):
+            return attr
+
+        def call(*a, **kw):
+            flat = [x for arg in a for x in (arg if isinstance(arg, (list, tuple)) else [arg])]
+            if not any(is_sym(x) for x in flat):
+                return attr(*a, **kw)
+            # a math function without an exact model here: the few with an obvious exact meaning are mapped onto the
+            # symbolic value's own operators, anything else is inconclusive (a C function would silently read NaN)
+            if name == "fabs" and len(a) == 1:
+                return abs(a[0])
+            if name == "fsum" and len(a) == 1:
+                tot = 0
+                for x in a[0]:
+                    tot = tot + x
+                return tot
+            if name == "prod" and len(a) == 1:
+                tot = kw.get("start", 1)
+                for x in a[0]:
+                    tot = tot * x
+                return tot
+            if name == "pow" and len(a) == 2 and isinstance(a[1], int) and not is_sym(a[1]):
+                return a[0] ** a[1]
+            if name == "exp" and len(a) == 1 and hasattr(a[0], "exp"):
+                return a[0].exp()
+            if name in ("isnan", "isinf") and len(a) == 1:
+                return False  # symbolic values range over the reals
+            if name == "isfinite" and len(a) == 1:
+                return True
+            raise Inconclusive(f"math.{name} applied to a symbolic value is not modelled")
+
+        return call
 
     def isclose(self, a, b, rel_tol=1e-09, abs_tol=0.0):
         if is_sym(a) or is_sym(b):
